@@ -162,6 +162,12 @@ def observe_rows(out):
     L = lib()
     if not isinstance(out, (L['EncodedArray'], L['EncodedRaggedArray'])):
         return ('not-encoded', type(out).__name__)
+    if isinstance(out, L['EncodedRaggedArray']):
+        # a ragged result whose row lengths do not add up to its data is the library's inconsistency, not the
+        # observer's: report it as an observation instead of letting observe.column refuse it
+        n_flat, n_rows = int(np.asarray(out.ravel().raw()).size), int(np.asarray(out._shape.lengths).sum())
+        if n_flat != n_rows:
+            return ('inconsistent-ragged', 'data %d, sum(lengths) %d' % (n_flat, n_rows))
     try:
         col = observe.column(out)
     except observe.ObserverError:
@@ -626,10 +632,6 @@ def retarget_layouts(n, quick, seed, big):
     out.append([n])
     out.append([2, n - 2])
     return out
-
-
-def _count(it):
-    return sum(1 for _ in it)
 
 
 def unit_cost(unit, tier, seed):
